@@ -5,6 +5,7 @@ package ranges
 
 import (
 	"fmt"
+	"os"
 	"testing"
 )
 
@@ -18,7 +19,11 @@ func TestGovcStandinGaps(t *testing.T) {
 			fmt.Printf("STANDIN-FAIL gaps-cover class=%s input=Gaps(%v,%v)=%v %s\n", class, total, rs, gaps, why)
 		}
 	}
-	for tl := int64(0); tl <= 7; tl++ {
+	maxTotal, maxRanges := int64(7), 3
+	if os.Getenv("VERIF_TIER") == "thorough" {
+		maxTotal, maxRanges = 8, 4 // thorough tier: every list of up to 4 ranges inside totals of up to 8 bits
+	}
+	for tl := int64(0); tl <= maxTotal; tl++ {
 		total := Range{Start: 0, Len: tl}
 		var all []Range
 		for s := int64(0); s <= tl; s++ {
@@ -80,7 +85,7 @@ func TestGovcStandinGaps(t *testing.T) {
 					break
 				}
 			}
-			if depth == 3 {
+			if depth == maxRanges {
 				return
 			}
 			for _, r := range all {
